@@ -22,7 +22,7 @@ PID = 'C12'
 PROPS_MODULE = 'SympdeModel.Props.C12'
 GEN = [identity.generate]
 LEANCHECKER = True
-RULE = ('computations = 12 parametrised recipes on the real API (TerminalExpr of grad/laplace/dot/div/curl/rot, bilinear forms with '
+RULE = ('computations = 16 parametrised recipes on the real API (chains of coordinate operators, catalogue mappings with numeric parameter sets, sums of integrals over different regions in every operand order and association, interface forms with explicit normals / Dn / jump / avg, TerminalExpr of grad/laplace/dot/div/curl/rot, bilinear forms with '
         'domain and boundary integrals, LogicalExpr on plain / polar / identity mapped squares for every space kind, SymbolicExpr, '
         'derivative-index helpers, hodge/d/infere_type on differential forms, Union, Domain.join + todict, Dot/Inner of permuted '
         'operands, Equation with essential BCs, mapped n-cubes) with names drawn from small pools; case = (history of 1-6 '
@@ -184,7 +184,13 @@ def dom_dim(d):
 
 def gen_step(rng, U):
     k = rng.choice(['tgrad', 'tgrad', 'tvec', 'form', 'logical', 'symbolic', 'idxder', 'hodge', 'union', 'join', 'comm',
-                    'equation', 'mapped', 'chain', 'chain'])
+                    'equation', 'mapped', 'chain', 'chain', 'amap', 'intsum', 'iface'])
+    if k == 'iface':
+        return gen_iface(rng, U)
+    if k == 'amap':
+        return gen_amap(rng, U)
+    if k == 'intsum':
+        return gen_intsum(rng, U)
     if k == 'chain':
         # chains of coordinate operators sharing inner derivatives (added after seed C12-2)
         d = U.dom(shape='abs')
@@ -259,6 +265,59 @@ def gen_step(rng, U):
     return {'r': 'mapped', 'p': {'dom': d}}
 
 
+CATALOGUE = {
+    # analytical mappings of the catalogue with their numeric parameters (2-D); Collela / Czarny cost 10-20 s per
+    # lowering without cache and are left out
+    'PolarMapping': {'c1': [0, 1, -2], 'c2': [0, 3], 'rmin': [0, 1, 0.5], 'rmax': [1, 3, 2]},
+    'TargetMapping': {'c1': [0, 1], 'c2': [0, 2], 'k': [0.3, 0.1, 0.5], 'D': [0.2, 0.1, 0.4]},
+    'AffineMapping': {'c1': [0, 1], 'c2': [0, 2], 'a11': [1, 2, 3], 'a12': [0, 1], 'a21': [0, 1], 'a22': [1, 3, 5]},
+}
+
+
+def gen_amap(rng, U):
+    """a catalogue mapping with a random numeric parameter set, applied to a square"""
+    mname = rng.choice(POOLS['mapping'])
+
+    def gen():
+        mcls = rng.choice(['AffineMapping', 'AffineMapping', 'PolarMapping', 'PolarMapping', 'TargetMapping'])
+        return [mcls, {k: rng.choice(v) for k, v in sorted(CATALOGUE[mcls].items())}]
+    mcls, params = U.pick('amap', mname, gen)
+    if mcls == 'PolarMapping' and params['rmax'] <= params['rmin']:
+        params['rmax'] = params['rmin'] + 2
+    if mcls == 'AffineMapping' and params['a11'] * params['a22'] == params['a12'] * params['a21']:
+        params['a22'] += 1
+    d = U.dom(shape='cube', dims=(2,))
+    sp = U.space(False, d)
+    return {'r': 'amap', 'p': {'mcls': mcls, 'mname': mname, 'params': params, 'dom': d, 'sp': sp,
+                               'fn': U.fn(False, sp, d), 'op': rng.choice(['dx', 'dx', 'dy'])}}
+
+
+IFACE_BIL = ['jn_jdn', 'jj', 'adn_j', 'mp', 'jn_a', 'fn_gn', 'dn_n']
+IFACE_LIN = ['jdn', 'jn', 'a_dnp']
+
+
+def gen_iface(rng, U):
+    """forms over the interface of two joined patches (explicit normals 'n' / 'nn', Dn, jump, avg, minus, plus)"""
+    dim = U.pick('ifacedim', 0, lambda: rng.choice([1, 2, 2, 3]))
+    return {'r': 'iface', 'p': {'dim': dim, 'names': ['A', 'B'], 'name': rng.choice(POOLS['domain']), 'sp': rng.choice(POOLS['space']),
+                                'fn': rng.choice(POOLS['function']), 'normal': rng.choice(['n', 'n', 'nn']),
+                                'bil': rng.sample(IFACE_BIL, rng.randint(1, 3)), 'lin': rng.sample(IFACE_LIN, rng.randint(0, 2))}}
+
+
+def gen_intsum(rng, U):
+    """a sum of 2 or 3 integrals over pairwise different regions (0 = the interior, k = the k-th face)"""
+    d = U.dom(shape='cube', dims=(2, 3))
+    sp = U.space(False, d)
+    n = rng.choice([2, 2, 3])
+    nfaces = 2 * dom_dim(d)
+    regions = rng.sample(list(range(nfaces + 1)), n)
+    if 0 not in regions and rng.random() < 0.7:
+        regions[rng.randrange(n)] = 0
+    sp[2] = None
+    return {'r': 'intsum', 'p': {'dom': d, 'sp': sp, 'fn': U.fn(False, sp, d), 'regions': regions,
+                                 'shape': rng.choice(['left', 'right'])}}
+
+
 def perturb(rng, step):
     """a computation that looks like `step` (same recipe, same names) but differs in one or two attributes:
     dimension, shape, bounds, mapping type, space kind, degree - the targeted form of name reuse"""
@@ -272,6 +331,8 @@ def perturb(rng, step):
             opts.append('kind')
         if st['r'] == 'hodge':
             opts += ['k', 'n']
+        if st['r'] == 'amap':
+            opts = ['mparams', 'mparams', 'mparams', 'lo', 'kind']
         if 'dim' in p:
             opts.append('pdim')
         if not opts:
@@ -291,6 +352,14 @@ def perturb(rng, step):
         elif o == 'kind':
             kinds = ['h1', 'hcurl', 'hdiv', 'l2', None] if p['sp'][0] == 'V' else ['h1', None, 'l2']
             p['sp'][2] = rng.choice([x for x in kinds if x != p['sp'][2]])
+        elif o == 'mparams':
+            # the same class and name, another numeric parameter set
+            for k in rng.sample(sorted(p['params']), rng.randint(1, len(p['params']))):
+                p['params'][k] = rng.choice([x for x in CATALOGUE[p['mcls']][k] if x != p['params'][k]])
+            if p['mcls'] == 'PolarMapping' and p['params']['rmax'] <= p['params']['rmin']:
+                p['params']['rmax'] = p['params']['rmin'] + 2
+            if p['mcls'] == 'AffineMapping' and p['params']['a11'] * p['params']['a22'] == p['params']['a12'] * p['params']['a21']:
+                p['params']['a22'] += 1
         elif o == 'k':
             p['k'] = rng.choice([x for x in range(p['n'] + 1) if x != p['k']] or [p['k']])
         elif o == 'n':
@@ -315,6 +384,8 @@ def rename(step, classes, suffix):
             d[1] += suffix
     if 'dom' in p:
         ren_dom(p['dom'])
+    if 'mname' in p and 'mapping' in classes:
+        p['mname'] += suffix
     if 'patches' in p:
         for d in p['patches']:
             ren_dom(d)
@@ -322,6 +393,8 @@ def rename(step, classes, suffix):
             p['name'] += suffix
     if 'names' in p and 'domain' in classes:
         p['names'] = [n + suffix for n in p['names']]
+        if st.get('r') == 'iface':
+            p['name'] += suffix
     if 'space' in classes:
         if isinstance(p.get('sp'), list):
             p['sp'][1] += suffix
@@ -354,7 +427,7 @@ def with_clears(rng, hist):
 
 
 ORDERED = {'union': lambda p: len(p['names']), 'join': lambda p: len(p['conns']), 'comm': lambda p: 2,
-           'form': lambda p: 2 + len(p.get('bnd') or [])}
+           'form': lambda p: 2 + len(p.get('bnd') or []), 'intsum': lambda p: len(p['regions'])}
 
 
 # --------------------------------------------------------------------------- correspondence: the memo model
@@ -456,6 +529,8 @@ def named(st):
         out['function'][n] = (json.dumps(p.get('sp')), ctx)
     if st.get('r') == 'hodge':
         out['form'][p['name']] = (p['k'], p['n'])
+    if st.get('r') == 'amap':
+        out['mapping'][p['mname']] = (p['mcls'], 2, json.dumps(p['params'], sort_keys=True))
     return out
 
 
@@ -470,11 +545,14 @@ def explain(farm, ref, culprit, final):
             continue
         out = sv.ask([rename(culprit, [cls], '_x9'), final])
         if view(out[-1]) == ref:
+            if cls == 'mapping' and all(len(a[cls][n]) == 3 and len(b[cls][n]) == 3 and a[cls][n][:2] == b[cls][n][:2] for n in clash):
+                # same class, name and dimension: only the numeric parameters of the analytical mapping differ
+                return ['mapping-parameters']
             return [cls]
     return []
 
 
-def check_case(o, farm, hist, final, mode, rng, clears=True):
+def check_case(o, farm, hist, final, mode, rng, clears=True, label=None):
     sv0 = farm.on[0]
     ref_out = sv0.ask([final])[0]
     ref = view(ref_out)
@@ -490,7 +568,7 @@ def check_case(o, farm, hist, final, mode, rng, clears=True):
         o.count('alone:seed/cache')
         if view(out[0]) != ref:
             what = 'PYTHONHASHSEED=%s' % sv.seed if sv.cache else 'SYMPY_USE_CACHE=no'
-            o.fail('config:%s:%s' % ('seed' if sv.cache else 'cache-off', fs),
+            o.fail('config:%s:%s' % ('seed' if sv.cache else 'cache-off', label or fs),
                    'in a fresh interpreter %s gives %s under %s but %s under PYTHONHASHSEED=%s with the cache on'
                    % (fs, view(out[0]), what, ref, sv0.seed), step=fs)
             return
@@ -548,7 +626,13 @@ def check_order(o, farm, st, rng):
     sv0 = farm.on[0]
     base = copy.deepcopy(st)
     base['p']['order'] = list(range(n))
-    ref = view(sv0.ask([base])[0])
+    ref_out = sv0.ask([base])[0]
+    ref = view(ref_out)
+    if ref_out.get('bad'):
+        o.fail('order:%s:%s:assoc' % (st['r'], json.dumps(st['p'], sort_keys=True)),
+               'the sum of integrals over different regions depends on the association of its operands (%s-nested vs left-nested, same '
+               'operand order): %s' % (base['p'].get('shape', 'left'), ref_out['bad']), step=step_str(base))
+        return
     for _ in range(2):
         perm = list(range(n))
         rng.shuffle(perm)
@@ -561,6 +645,12 @@ def check_order(o, farm, st, rng):
         r1 = farm.map(farm.on[:3], [var])
         r2 = sv0.ask([base, var])
         for out in [x[0] for x in r1] + [r2[-1]]:
+            if out.get('bad'):
+                o.fail('order:%s:%s:%s' % (st['r'], json.dumps(st['p'], sort_keys=True), perm),
+                       'the sum of integrals over different regions depends on the order / association of its operands (order %s, %s-nested, '
+                       'compared in one interpreter with the left-nested sum in the order %s): %s'
+                       % (perm, var['p'].get('shape', 'left'), list(range(n)), out['bad']), step=step_str(var))
+                return
             if out.get('mut'):
                 o.fail('mutates-input:%s' % st['r'], 'computing %s alters its inputs: %s' % (step_str(var), out['mut']), step=step_str(var))
             if view(out) != ref:
@@ -570,8 +660,20 @@ def check_order(o, farm, st, rng):
                 return
 
 
+_AMAP = lambda rmin, rmax: {'r': 'amap', 'p': {'mcls': 'PolarMapping', 'mname': 'F', 'params': {'c1': 0, 'c2': 0, 'rmin': rmin, 'rmax': rmax},
+                                               'dom': ['cube', 'A', 2, 0], 'sp': ['S', 'V', None], 'fn': 'u', 'op': 'dx'}}
+FIXED_ORDER = [
+    # sums of integrals over different regions (seed C12-4): 2 terms, and 2+1 / 1+2 association
+    {'r': 'intsum', 'p': {'dom': ['cube', 'Omega', 2, 0], 'sp': ['S', 'V', None], 'fn': 'u', 'regions': [0, 2], 'shape': 'left'}},
+    {'r': 'intsum', 'p': {'dom': ['cube', 'Omega', 2, 0], 'sp': ['S', 'V', None], 'fn': 'u', 'regions': [0, 2, 3], 'shape': 'right'}},
+    {'r': 'intsum', 'p': {'dom': ['cube', 'Omega', 3, 0], 'sp': ['S', 'V', None], 'fn': 'u', 'regions': [5, 1], 'shape': 'left'}},
+]
 FIXED = [
     # (key expected on the pre-fix tree, history, final, mode)
+    ('name-reuse:mapping-parameters', [_AMAP(0, 1)], _AMAP(1, 3), 'reuse'),      # seed C12-3
+    # fixed by ab99c06: the plus-face kernel changed sign with the hash seed (normal reversed once or twice)
+    ('config:seed:iface-normal', [], {'r': 'iface', 'p': {'dim': 2, 'names': ['A', 'B'], 'name': 'D', 'sp': 'V', 'fn': 'v', 'normal': 'n',
+                                                         'bil': ['jn_jdn'], 'lin': []}}, 'same'),
     ('history-leak', [{'r': 'chain', 'p': {'dom': ['abs', 'Omega', 2], 'sp': ['S', 'V', None], 'fn': 'u', 'ops': ['dx2', 'dx1']}}],
      {'r': 'chain', 'p': {'dom': ['abs', 'Omega', 2], 'sp': ['S', 'V', None], 'fn': 'u', 'ops': ['dx2', 'dx2']}}, 'same'),
     ('history-leak', [{'r': 'chain', 'p': {'dom': ['abs', 'Omega', 3], 'sp': ['S', 'V', None], 'fn': 'u', 'ops': ['dx3', 'dx1']}},
@@ -600,7 +702,8 @@ def oracle(ctx, factor, seeds):
     try:
         for key, hist, final, mode in FIXED:
             o.evaluations += 1
-            check_case(o, farm, hist, final, mode, rng, clears=False)
+            check_case(o, farm, hist, final, mode, rng, clears=False,
+                       label=key.split(':', 2)[2] if key.startswith('config:seed:') else None)
         ncase = (900 if ctx.thorough else 50) * factor
         for i in range(ncase):
             mode = rng.choice(['hygienic', 'same', 'same', 'reuse', 'reuse'])
@@ -620,11 +723,14 @@ def oracle(ctx, factor, seeds):
             check_case(o, farm, hist, final, mode, rng)
             if len(o.samples) < 4:
                 o.samples.append({'mode': mode, 'history': [step_str(s) for s in hist], 'final': step_str(final)})
+        for st in FIXED_ORDER:
+            o.evaluations += 1
+            check_order(o, farm, st, rng)
         nord = (240 if ctx.thorough else 24) * factor
         U = Universe(rng, consistent=False)
         k = 0
         while k < nord:
-            st = gen_step(rng, U)
+            st = gen_intsum(rng, U) if k % 3 == 0 else gen_step(rng, U)
             if st['r'] in ORDERED:
                 o.evaluations += 1
                 check_order(o, farm, st, rng)
